@@ -765,6 +765,136 @@ theorem recovers_after_raise_fails_pinned : ¬ recovers_after_raise_full (initPi
   revert this
   decide
 
+/-! ## composite steps: two things within one loop iteration -/
+
+/-- running the woken tasks of a balanced work state yields a state satisfying the invariant -/
+theorem finish_inv (w : Work) (hw : WInv w) (hsl : w.slack = 0) (hV : 1 ≤ w.st.V)
+    (hL : w.st.leaked = 0) : Inv (finish w).1 := by
+  have f := finish_spec w hw
+  have hl : (finish w).1.leaked = 0 := by rw [f.L, hL]
+  refine ⟨f.inv0.1, ?_, f.inv0.2, by have := f.V_ge; omega, hl, f.fx⟩
+  have := f.slack
+  rw [hsl, hl] at this
+  simp at this
+  omega
+
+/-- **Permit conservation across the composite step**: a holder leaves and, within the same loop
+iteration, a waiter is cancelled — the one that had just been handed the permit (it passes it
+on), or one still queued (it just leaves), or nobody (not waiting): the invariant
+(`S + |holders| = V`, `V ≥ 1`, nobody waits while a permit is free) is preserved; no permit is
+lost in that window. -/
+theorem stepExitCancel_inv (s : Lim) (i j : Nat) (h : Inv s) : Inv (stepExitCancel s i j).1 := by
+  have hS0 := h.S_nonneg; have hc := h.cons; have hvp := h.V_pos; have hl := h.no_leak
+  unfold stepExitCancel
+  by_cases hi : i ∈ s.holders
+  · simp only [hi, ↓reduceIte]
+    have hlen := erase_mem_length s.holders i hi
+    have hpos := List.length_pos_of_mem hi
+    rw [retireBound_fixed s h.fx]
+    by_cases hv : s.V > bound s
+    · simp only [hv, ↓reduceIte]
+      have hb : bound s ≥ 1 := by unfold bound; omega
+      have i2 : Inv { s with holders := s.holders.erase i, V := s.V - 1 } :=
+        ⟨hS0, by dsimp only; omega, h.wait_S, by dsimp only; omega, hl, h.fx⟩
+      by_cases hj : j ∈ s.waiters
+      · simp only [hj, ↓reduceIte]
+        refine ⟨hS0, i2.cons, ?_, i2.V_pos, hl, h.fx⟩
+        intro _
+        exact h.wait_S (by intro h0; rw [h0] at hj; simp at hj)
+      · simp only [hj, ↓reduceIte]; exact i2
+    · simp only [hv, ↓reduceIte]
+      have w0inv : WInv ⟨{ s with holders := s.holders.erase i }, [], []⟩ := ⟨hS0, h.wait_S, h.fx⟩
+      obtain ⟨rinv, fr, hs⟩ := release_spec _ w0inv
+      generalize release ⟨{ s with holders := s.holders.erase i }, [], []⟩ = w at rinv fr hs
+      have e2 : w.st.V = s.V := fr.V
+      have e3 : w.st.holders = s.holders.erase i := fr.H
+      have e4 : w.st.leaked = s.leaked := fr.L
+      have e7 : w.st.S + w.woken.length = s.S + 1 := by simpa using hs
+      have hsl : w.slack = 0 := by simp only [Work.slack, e2, e3, e4, hl]; omega
+      by_cases hjw : j ∈ w.woken
+      · simp only [hjw, ↓reduceIte]
+        -- the woken waiter is cancelled before it ran: it passes the permit on
+        have hwl := erase_mem_length w.woken j hjw
+        have w1inv : WInv { w with woken := w.woken.erase j, evs := w.evs ++ [Ev.cancelled j] } :=
+          ⟨rinv.S_nonneg, rinv.wait_S, rinv.fx⟩
+        obtain ⟨r2, f2, h2⟩ := release_spec _ w1inv
+        apply finish_inv _ r2
+        · have a : (release { w with woken := w.woken.erase j, evs := w.evs ++ [Ev.cancelled j] }).st.V = w.st.V := f2.V
+          have b : (release { w with woken := w.woken.erase j, evs := w.evs ++ [Ev.cancelled j] }).st.holders = w.st.holders := f2.H
+          have c : (release { w with woken := w.woken.erase j, evs := w.evs ++ [Ev.cancelled j] }).st.leaked = w.st.leaked := f2.L
+          have d : (release { w with woken := w.woken.erase j, evs := w.evs ++ [Ev.cancelled j] }).st.S +
+              (release { w with woken := w.woken.erase j, evs := w.evs ++ [Ev.cancelled j] }).woken.length =
+              w.st.S + (w.woken.erase j).length + 1 := h2
+          simp only [Work.slack] at hsl ⊢
+          rw [a, b, c]
+          omega
+        · rw [show (release { w with woken := w.woken.erase j, evs := w.evs ++ [Ev.cancelled j] }).st.V = w.st.V from f2.V, e2]
+          exact hvp
+        · rw [show (release { w with woken := w.woken.erase j, evs := w.evs ++ [Ev.cancelled j] }).st.leaked = w.st.leaked from f2.L, e4]
+          exact hl
+      · simp only [hjw, ↓reduceIte]
+        by_cases hjq : j ∈ w.st.waiters
+        · simp only [hjq, ↓reduceIte]
+          -- a waiter still queued leaves; the woken task (if any) runs first
+          have q0 : WInv { w with st := { w.st with waiters := w.st.waiters.erase j } } :=
+            ⟨rinv.S_nonneg, fun _ => rinv.wait_S (by intro h0; rw [h0] at hjq; simp at hjq), rinv.fx⟩
+          cases hwk : w.woken with
+          | nil =>
+            simp only [hwk]
+            apply finish_inv
+            · exact ⟨q0.S_nonneg, q0.wait_S, q0.fx⟩
+            · simp only [Work.slack, hwk] at hsl ⊢; exact hsl
+            · show 1 ≤ w.st.V; rw [e2]; exact hvp
+            · show w.st.leaked = 0; rw [e4]; exact hl
+          | cons x rest =>
+            simp only [hwk]
+            have q1 : WInv { ({ w with st := { w.st with waiters := w.st.waiters.erase j } } : Work) with woken := rest } :=
+              ⟨q0.S_nonneg, q0.wait_S, q0.fx⟩
+            have a := resume_spec x _ q1
+            have sl1 : ({ ({ w with st := { w.st with waiters := w.st.waiters.erase j } } : Work) with woken := rest } : Work).slack = 1 := by
+              simp only [Work.slack, hwk, List.length_cons] at hsl ⊢; push_cast at hsl; omega
+            generalize resume x { ({ w with st := { w.st with waiters := w.st.waiters.erase j } } : Work) with woken := rest } = w1 at a
+            apply finish_inv
+            · exact ⟨a.inv.S_nonneg, a.inv.wait_S, a.inv.fx⟩
+            · have := a.slack; rw [sl1] at this
+              simp only [Work.slack] at this ⊢; omega
+            · show 1 ≤ w1.st.V
+              by_cases hT : 0 < w.st.T
+              · have := (a.pos hT).1; simp only [] at this; omega
+              · have := (a.nonpos (by simpa using Int.not_lt.mp hT)).1; simp only [] at this; omega
+            · show w1.st.leaked = 0
+              rw [a.L]; show w.st.leaked = 0; rw [e4]; exact hl
+        · simp only [hjq, ↓reduceIte]
+          exact finish_inv w rinv hsl (by rw [e2]; exact hvp) (by rw [e4]; exact hl)
+  · simp only [hi, ↓reduceIte]; exact h
+
+theorem step2_inv (s : Lim) (op : Op2) (h : Inv s) : Inv (step2 s op).1 := by
+  cases op with
+  | plain op => exact step_inv s op h
+  | exitCancel i j => exact stepExitCancel_inv s i j h
+
+theorem run2_inv (ops : List Op2) : ∀ (s : Lim), Inv s → Inv (run2 s ops).1 := by
+  induction ops with
+  | nil => intro s h; exact h
+  | cons op ops ih => intro s h; exact ih _ (step2_inv s op h)
+
+/-- **Permits are neither lost nor duplicated — also over streams with composite steps** (a
+holder's exit and the cancellation of a waiter within one loop iteration, anywhere in the
+stream, any number of times). -/
+theorem permit_conservation_composite (n : Int) (ops : List Op2) :
+    let s := (run2 (init n) ops).1
+    s.S + s.holders.length = s.V ∧ 0 ≤ s.S ∧ 1 ≤ s.V ∧ s.leaked = 0 ∧ (s.waiters ≠ [] → s.S = 0) := by
+  have i := run2_inv ops _ (init_inv n)
+  exact ⟨i.cons, i.S_nonneg, i.V_pos, i.no_leak, i.wait_S⟩
+
+-- the window itself: limit 1, a holder, a waiter; exit and cancellation of that waiter in one
+-- iteration; the permit is back, the next entrant gets in
+example : run2 (init 1) [.plain (.enter 0), .plain (.enter 1), .exitCancel 0 1, .plain (.enter 2)]
+    = (⟨1, 1, 0, 0, [2], [], true⟩, [.entered 0, .cancelled 1, .entered 2]) := by decide
+-- the cancelled waiter passes the permit on to the one behind it
+example : (run2 (init 1) [.plain (.enter 0), .plain (.enter 1), .plain (.enter 2), .exitCancel 0 1]).2
+    = [.entered 0, .cancelled 1, .entered 2] := by decide
+
 /-! ## session layer: `unanswered_request_count` -/
 
 inductive SessOp where
